@@ -330,29 +330,14 @@ func (g *gen) inject(pos token.Pos, name string, sig *types.Signature, set *Prov
 		typeInfo *types.Info
 	}
 	var pendingVars []pendingVar
-	ec := new(errorCollector)
+	if errs := checkInjectorCalls(calls, injectSig, g.pkg.PkgPath); len(errs) > 0 {
+		return mapErrors(errs, func(e error) error {
+			return notePosition(g.pkg.Fset.Position(pos), fmt.Errorf("inject %s: %v", name, e))
+		})
+	}
 	for i := range calls {
 		c := &calls[i]
-		if c.hasCleanup && !injectSig.cleanup {
-			ts := types.TypeString(c.out, nil)
-			ec.add(notePosition(
-				g.pkg.Fset.Position(pos),
-				fmt.Errorf("inject %s: provider for %s returns cleanup but injection does not return cleanup function", name, ts)))
-		}
-		if c.hasErr && !injectSig.err {
-			ts := types.TypeString(c.out, nil)
-			ec.add(notePosition(
-				g.pkg.Fset.Position(pos),
-				fmt.Errorf("inject %s: provider for %s returns error but injection not allowed to fail", name, ts)))
-		}
 		if c.kind == valueExpr {
-			if err := accessibleFrom(c.valueTypeInfo, c.valueExpr, g.pkg.PkgPath); err != nil {
-				// TODO(light): Display line number of value expression.
-				ts := types.TypeString(c.out, nil)
-				ec.add(notePosition(
-					g.pkg.Fset.Position(pos),
-					fmt.Errorf("inject %s: value %s can't be used: %v", name, ts, err)))
-			}
 			if g.values[c.valueExpr] == "" {
 				t := c.valueTypeInfo.TypeOf(c.valueExpr)
 
@@ -365,9 +350,6 @@ func (g *gen) inject(pos token.Pos, name string, sig *types.Signature, set *Prov
 				})
 			}
 		}
-	}
-	if len(ec.errors) > 0 {
-		return ec.errors
 	}
 
 	// Perform one pass to collect all imports, followed by the real pass.
@@ -391,6 +373,33 @@ func (g *gen) inject(pos token.Pos, name string, sig *types.Signature, set *Prov
 		g.p(")\n\n")
 	}
 	return nil
+}
+
+// checkInjectorCalls reports the calls that an injector with the given output
+// signature, declared in the package with path pkgPath, cannot make: providers
+// that return a cleanup or an error the injector does not return, and value
+// expressions that are not accessible from the injector's package.
+func checkInjectorCalls(calls []call, sig outputSignature, pkgPath string) []error {
+	var errs []error
+	for i := range calls {
+		c := &calls[i]
+		if c.hasCleanup && !sig.cleanup {
+			ts := types.TypeString(c.out, nil)
+			errs = append(errs, fmt.Errorf("provider for %s returns cleanup but injection does not return cleanup function", ts))
+		}
+		if c.hasErr && !sig.err {
+			ts := types.TypeString(c.out, nil)
+			errs = append(errs, fmt.Errorf("provider for %s returns error but injection not allowed to fail", ts))
+		}
+		if c.kind == valueExpr {
+			if err := accessibleFrom(c.valueTypeInfo, c.valueExpr, pkgPath); err != nil {
+				// TODO(light): Display line number of value expression.
+				ts := types.TypeString(c.out, nil)
+				errs = append(errs, fmt.Errorf("value %s can't be used: %v", ts, err))
+			}
+		}
+	}
+	return errs
 }
 
 // rewritePkgRefs rewrites any package references in an AST into references for the
